@@ -145,7 +145,7 @@ def generate(rng, prop, tier):
             if rng.chance(0.4):
                 ops.append({'op': 'items'})
         clients.append({'role': role, 'ops': ops})
-    return {'engine': 'racesim', 'prop': prop, 'backend': B.config(label, 'r0'), 'ops': pre,
+    return {'engine': 'racesim', 'prop': prop, 'backend': B.config(label, B.odd_name(rng, label, 'r0')), 'ops': pre,
             'clients': clients, 'sseed': rng.below(1 << 30), 'kseed': rng.below(1 << 30),
             'sticky': rng.choice([0.2, 0.5, 0.8]), 'order': rng.choice(['sorted', 'permute'])}
 
